@@ -3,11 +3,35 @@ from __future__ import annotations
 
 import argparse
 import importlib
+import json
 import os
+import subprocess
 import sys
+import tempfile
 import traceback
+from concurrent.futures import ThreadPoolExecutor
 
 from .report import Check, replay_file, VERIF
+
+
+def _run_section(pid, tier, repo, name):
+    fd, path = tempfile.mkstemp(suffix=".json", dir=os.environ.get("TMPDIR", "/var/tmp"))
+    os.close(fd)
+    env = dict(os.environ)
+    env["PYVC_SECTION"] = name
+    env["PYVC_SECTION_OUT"] = path
+    try:
+        p = subprocess.run([sys.executable, "-m", "pyvc.driver", pid, "--tier", tier, "--repo", repo],
+                           cwd=VERIF, env=env, capture_output=True, text=True)
+        try:
+            with open(path) as f:
+                data = json.load(f)
+        except Exception:  # noqa
+            data = None
+        return name, p.returncode, data, (p.stdout + p.stderr)[-3000:]
+    finally:
+        if os.path.exists(path):
+            os.unlink(path)
 
 
 def main(argv=None):
@@ -26,16 +50,31 @@ def main(argv=None):
     sys.path.insert(0, VERIF)
     try:
         mod = importlib.import_module(f"contracts.{a.pid}")
-    except ModuleNotFoundError:
-        print(f"no contract module for {a.pid}")
-        return 3
+    except ModuleNotFoundError as ex:
+        if ex.name == f"contracts.{a.pid}":
+            print(f"no contract module for {a.pid}")
+            return 3
+        raise
     chk = Check(a.pid, a.tier, seed, a.repo, title=getattr(mod, "TITLE", ""))
+    child_out = os.environ.get("PYVC_SECTION_OUT")
     try:
         mod.run(chk)
     except Exception:  # noqa
         traceback.print_exc()
         print(f"CHECKER-CRASH property={a.pid}")
         return 3
+    if child_out:
+        chk.dump_child(child_out)
+        return 0
+    secs = getattr(chk, "sections", [])
+    if secs:
+        with ThreadPoolExecutor(max_workers=min(16, len(secs))) as ex:
+            results = list(ex.map(lambda n: _run_section(a.pid, a.tier, a.repo, n), secs))
+        for name, rc, data, log in results:
+            if data is None:
+                print(f"CHECKER-CRASH property={a.pid} section={name}\n{log}")
+                return 3
+            chk.merge_child(data)
     return chk.finish()
 
 
